@@ -25,11 +25,13 @@ def _args(tier, seed, k, profile):
     # deletions inside them), r long random stream (20-40 k items, many window moves, batched).  Every file has a d segment early.
     # e DIRECTED, first in every file: EMPTY and ONE-item sketches and union results serialized (bytes + stream), restored through both
     # readers, continued in lock-step with the original, used as union operands (C09 "restore, then continue")
-    kinds = ["esdaubur", "eudasbad", "eadsubru", "eubdasud"][k % 4]
+    # x DIRECTED, second in every file: stop EXACTLY at every flavor / window-shift boundary count b and at b-1, b+1 (lg_k 4..11 over the 8
+    # files of a run), observe, serialize, restore through both readers, union of the sketch vs union of its restored copy, lock-step on
+    kinds = ["exsdaubur", "exudasbad", "exadsubru", "exubdasud"][k % 4]
     if tier == Q:
-        maxlgk, events, segs = 10, 2600, 8
+        maxlgk, events, segs = 10, 2600, 9
     else:
-        maxlgk, events, segs = (14 if k % 3 == 0 else 11), 6000, 10
+        maxlgk, events, segs = (14 if k % 3 == 0 else 11), 6000, 11
     return ["--seed", seed, "--segments", segs, "--events", events, "--maxlgk", maxlgk, "--kinds", kinds,
             "--serde", 15 if profile == "serde" else 4]
 
